@@ -539,6 +539,34 @@ def sizes_of(view):
     return sz
 
 
+def degeneracy_of(view):
+    """which degenerate shapes a HUGR view has (distribution only)"""
+    linked_in, linked_out = {}, {}
+    for l in view["links"]:
+        linked_out.setdefault(l[0], set()).add(l[1])
+        linked_in.setdefault(l[2], set()).add(l[3])
+    r = {"hugrs_without_any_link": not view["links"], "hugrs_without_any_link_but_with_ports": False,
+         "hugrs_of_a_single_node": len(view["nodes"]) == 1, "hugrs_with_a_linkless_node_that_has_ports": False,
+         "hugrs_with_an_unlinked_port_below_a_linked_one": False, "hugrs_with_a_container_operation_without_children": False}
+    containers = ("DFG", "CFG", "Conditional", "TailLoop", "Case", "Module", "FuncDefn", "DataflowBlock")
+    todo = [view["tree"]]
+    while todo:
+        t = todo.pop()
+        i = t["info"]
+        todo.extend(t["ch"])
+        if i["nin"] + i["nout"] > 0:
+            if not view["links"]:
+                r["hugrs_without_any_link_but_with_ports"] = True
+            if i["idx"] not in linked_in and i["idx"] not in linked_out:
+                r["hugrs_with_a_linkless_node_that_has_ports"] = True
+        for n, linked in ((i["nin"], linked_in.get(i["idx"], set())), (i["nout"], linked_out.get(i["idx"], set()))):
+            if any(k not in linked and any(j > k for j in linked) for k in range(n)):
+                r["hugrs_with_an_unlinked_port_below_a_linked_one"] = True
+        if not t["ch"] and (i["nq"].split("(")[0] in containers):
+            r["hugrs_with_a_container_operation_without_children"] = True
+    return r
+
+
 class C20(fw.Prop):
     id = "C20"
     props_file = "props/C20.v"
@@ -568,9 +596,14 @@ class C20(fw.Prop):
             "FuncDefn, Tag, DataflowBlock successors), containers with up to 1100 children, one port carrying up to "
             "~130 links, nesting up to 66 deep, operation names / metadata keys and values / type labels of "
             "hundreds of characters.  "
+            "a fourth stream (16 quick / 120 thorough, plus 8 corpus entries) of degenerate HUGRs: no link at all "
+            "(regions that discard every input, modules whose functions ignore their arguments, unused declarations "
+            "and constants, every link deleted again), nodes with ports and no link (Hugr.add_node, insert_hugr of "
+            "sub-HUGRs nobody is wired to), unlinked ports below the only linked one, order links only, single-node "
+            "HUGRs of every operation, containers holding only Input/Output or nothing, unfinished CFGs/loops.  "
             "non-trivial = the HUGR has a nested container (cluster inside a cluster) and at least one "
             "non-value link (order/const/function/control-flow), or it has a node with more than 16 ports in one "
-            "direction, more than 16 children, or nesting deeper than 16")
+            "direction, more than 16 children, or nesting deeper than 16, or it has no link at all but a node with ports")
     trusted = ["harness/props/c20.py: tokenising parser of the DOT text the graphviz package emits and of the HTML-like "
                "node labels (insensitive to whitespace, quoting style, attribute and statement order, styling attributes "
                "and where they are set - node/edge/graph default statements are applied with DOT's scoping -, inline "
@@ -612,6 +645,15 @@ class C20(fw.Prop):
             cases.append({"big": r3.randrange(1 << 30), "heavy": tier != "quick", "reload": r3.random() < 0.2,
                           "resolve": False, "shared": r3.random() < 0.3,
                           "cfgs": [0] + r3.sample(range(1, 6), 1 if tier == "quick" else 2)})
+        # seeded round 4: degenerate HUGRs (no link at all, nodes with ports but no link, a single node, containers that
+        # hold nothing); a fourth generator, so that the three streams above stay what they were
+        r4 = random.Random(r3.randrange(1 << 30))
+        for i in range(16 if tier == "quick" else 120):
+            seed = r4.randrange(1 << 30)
+            rel, sh = r4.random() < 0.3, r4.random() < 0.3
+            cases.append({"deg": seed, "reload": rel and deg_reloadable(gen_deg_program(random.Random(seed))),
+                          "resolve": False, "shared": sh,
+                          "cfgs": [0] + r4.sample(range(1, 6), 1 if tier == "quick" else 2)})
         return cases
 
     def corpus(self, ctx):
@@ -638,6 +680,21 @@ class C20(fw.Prop):
             {"bigprog": {"form": "children", "n": 130, "fan": True}, "reload": False, "shared": True, "cfgs": [0, 2]},
             {"bigprog": {"form": "deep", "d": 33}, "reload": False, "cfgs": [0, 5]},
             {"bigprog": {"form": "names", "L": 257, "K": 17, "V": 300}, "reload": False, "cfgs": [0, 1]},
+            # seeded round 4 (C20-g): one cell per port also when the HUGR has no link at all / the node has no link
+            {"degprog": {"root": "dfg", "tys": "BB", "keep": [], "items": []}, "reload": False, "cfgs": [0, 1]},   # the demo of C20-g
+            {"degprog": {"root": "module", "fns": [{"tys": "BBB", "keep": [], "items": []}], "decls": ["B"], "consts": 1,
+                         "alias": False, "call": False}, "reload": True, "cfgs": [0, 4]},           # a function that ignores its arguments
+            {"degprog": {"root": "dfg", "tys": "BQ", "keep": [0, 1], "items": [], "unlink": "all"}, "reload": False,
+             "shared": True, "cfgs": [0, 2]},                                                    # every link deleted again
+            {"degprog": {"root": "dfg", "tys": "B", "keep": [], "items": [
+                {"k": "iso", "a": 2, "b": 3, "at": 0, "op": "custom"}, {"k": "empty_dfg"}, {"k": "const"},
+                {"k": "iso", "a": 1, "b": 1, "at": 1, "op": "DFG"}, {"k": "ins_cond", "n": 2, "tys": "B"}]},
+             "reload": False, "cfgs": [0, 3]},                             # nodes with ports and no link, empty containers
+            {"degprog": {"root": "dfg", "tys": "B", "keep": [], "items": [{"k": "gap", "a": 4, "b": 1, "j": 3}, {"k": "order"}]},
+             "reload": False, "cfgs": [0, 5]},                             # ports 0..2 below the only linked one; an order link
+            {"degprog": {"root": "single", "op": "Module", "tys": ""}, "reload": False, "cfgs": [0, 1]},        # Hugr(): one node
+            {"degprog": {"root": "dfg", "tys": "", "keep": [], "items": []}, "reload": True, "cfgs": [0]},      # Dfg(): no port, no link
+            {"degprog": {"root": "cfg", "tys": "BU", "blocks": 0}, "reload": False, "cfgs": [0, 2]},            # a CFG nobody finished
         ]
 
     def build(self, case):
@@ -649,6 +706,9 @@ class C20(fw.Prop):
         if "big" in case or "bigprog" in case:
             p = case.get("bigprog") or gen_big_program(random.Random(case["big"]), case.get("heavy", False))
             return run_big_program(p), p
+        if "deg" in case or "degprog" in case:
+            p = case.get("degprog") or gen_deg_program(random.Random(case["deg"]))
+            return run_deg_program(p), p
         p = progs.gen_program(random.Random(case["seed"]), case.get("root"))
         h = progs.run(p).hugr
         if case.get("mutate"):
@@ -791,7 +851,9 @@ class C20(fw.Prop):
         if depth(v["tree"]) >= 3 and any(l[4][0] != "value" for l in v["links"]):
             return True
         sz = sizes_of(v)
-        return sz["ports"] > 16 or sz["children"] > 16 or sz["depth"] > 16
+        if sz["ports"] > 16 or sz["children"] > 16 or sz["depth"] > 16:
+            return True
+        return not v["links"] and sz["ports"] > 0          # ports to draw although the HUGR has no link
 
     def describe(self, case, obs):
         o = dict(obs)
@@ -823,6 +885,11 @@ class C20(fw.Prop):
             rest = {k: v for k, v in case.items() if k not in ("big", "heavy")}
             for q in shrink_big_program(p):
                 yield {**rest, "bigprog": q}
+        if "deg" in case or "degprog" in case:
+            p = case.get("degprog") or gen_deg_program(random.Random(case["deg"]))
+            rest = {k: v for k, v in case.items() if k != "deg"}
+            for q in shrink_deg_program(p):
+                yield {**rest, "degprog": q, "reload": bool(rest.get("reload")) and deg_reloadable(q)}
         if len(case.get("cfgs", [])) > 1:
             for c in case["cfgs"]:
                 yield {**case, "cfgs": [c]}
@@ -837,6 +904,9 @@ class C20(fw.Prop):
         if "big" in case:
             for k in range(30):
                 yield {**case, "big": case["big"] + 1 + k}
+        if "deg" in case:
+            for k in range(30):
+                yield {**case, "deg": case["deg"] + 1 + k, "reload": False}
 
     def distribution(self, cases, observations):
         d = {"reloaded": 0, "mutated": sum(1 for c in cases if c.get("mutate")), "nodes": [], "links_by_kind": {}, "render_errors": 0, "stmt_kinds": {},
@@ -847,7 +917,11 @@ class C20(fw.Prop):
              "size_boundary_programs": sum(1 for c in cases if "big" in c or "bigprog" in c),
              "hugrs_with_a_node_of_17plus_ports": 0, "hugrs_with_a_node_of_17plus_children": 0,
              "max_ports_in_one_direction": 0, "max_children": 0, "max_depth": 0, "max_links_on_one_port": 0,
-             "max_name_length": 0}
+             "max_name_length": 0,
+             "degenerate_programs": sum(1 for c in cases if "deg" in c or "degprog" in c),
+             "hugrs_without_any_link": 0, "hugrs_without_any_link_but_with_ports": 0, "hugrs_of_a_single_node": 0,
+             "hugrs_with_a_linkless_node_that_has_ports": 0, "hugrs_with_an_unlinked_port_below_a_linked_one": 0,
+             "hugrs_with_a_container_operation_without_children": 0}
 
         dd = d["diagnostic only, no verdict (model drift): renderings that differ from the model of today's render.py in "
                "what the property does not promise"] = {"renderings": 0}
@@ -862,6 +936,9 @@ class C20(fw.Prop):
                 continue
             d["hugrs_with_2plus_extension_op_definitions"] += len({i["nq"] for i in infos(o["view"]["tree"]) if i["nq"] != i["nu"]}) >= 2
             sz = sizes_of(o["view"])
+            dg = degeneracy_of(o["view"])
+            for k in dg:
+                d[k] += dg[k]
             d["hugrs_with_a_node_of_17plus_ports"] += sz["ports"] > 16
             d["hugrs_with_a_node_of_17plus_children"] += sz["children"] > 16
             for k1, k2 in (("ports", "max_ports_in_one_direction"), ("children", "max_children"), ("depth", "max_depth"),
@@ -1099,6 +1176,11 @@ def gen_ext_program(rng):
                 continue
             args = [rng.choice([w for w, t in pool if t.upper() == ti]) for ti in ins]
             ows = [(fresh(), t) for t in outs]
+            if spec[0] == "noop":
+                # Noop takes its type from the wire it is given ("f", the float64 of the standard float operations'
+                # declarations, stays "f"): once in ~8000 programs the builder then refused a conditional whose cases
+                # disagreed on "f"/"F" (a crash of the generator, not a drawing); same random stream as before
+                ows = [(ows[0][0], dict(pool)[args[0]])]
             st = {"k": "op", "op": list(spec), "args": args, "outs": [w for w, _ in ows]}
             if rng.random() < 0.15:
                 st["md"] = rng.choice([{"note": "x<y"}, {"k": [1, 2]}, {"ü": None, "n": 3}])
@@ -1349,6 +1431,273 @@ def shrink_big_program(p):
         yield {**p, "tys": "B"}
     if p.get("fan"):
         yield {**p, "fan": False}
+
+
+# ----------------------------------------------------------------------------- degenerate HUGRs (seeded round 4)
+# "one cell per input and output port", "one node statement per HUGR node", "one cluster per node that has children"
+# also hold where there is next to nothing to draw: HUGRs without any link (a region that discards all its inputs, a
+# module whose functions ignore their arguments, declarations and constants nobody uses, every link deleted again),
+# nodes that have ports but no link (added through Hugr.add_node, unused constants, sub-HUGRs put in by insert_hugr),
+# ports below the only linked one, order links only, a single node of any operation, containers that hold nothing
+# but their Input/Output nodes or nothing at all.  Programs as data; the port counts are whatever the HUGR reports.
+
+DEG_ROOTS = ["dfg", "dfg", "dfg", "funcdefn", "module", "module", "cfg", "cond", "tailloop", "single"]
+DEG_SINGLE = ["Module", "DFG", "Custom", "CFG", "Conditional", "TailLoop", "Case", "FuncDefn", "FuncDecl", "Const",
+              "Input", "Output", "DataflowBlock", "ExitBlock", "Tag", "MakeTuple", "UnpackTuple", "Noop", "LoadConst",
+              "Call", "ExtOp", "AliasDefn"]
+DEG_ITEMS = ["iso", "iso", "gap", "const", "empty_dfg", "ins_dfg", "ins_cond", "ins_cfg", "ins_loop", "used", "order"]
+
+
+def gen_deg_program(rng):
+    def row(lo=0, hi=4):
+        return "".join(rng.choice("BBQUP") for _ in range(rng.randint(lo, hi)))
+
+    def items(n):
+        out = []
+        for _ in range(n):
+            k = rng.choice(DEG_ITEMS)
+            it = {"k": k}
+            if k == "iso":                   # a node with b output ports and no link (Hugr.add_node); also container
+                #                              operations without a single child (drawn as a node, not as a cluster)
+                it.update(a=rng.randint(0, 3), b=rng.randint(0, 4), at=rng.randint(0, 3),
+                          op=rng.choice(["custom", "custom", "custom", "DFG", "CFG", "Conditional", "TailLoop"]))
+            elif k == "gap":                 # only port j of its inputs is linked: offsets 0..j-1 exist, unlinked
+                it.update(a=rng.randint(1, 5), b=rng.randint(0, 2), j=rng.randint(0, 4))
+            elif k in ("ins_dfg", "ins_loop"):
+                it.update(tys=row(0, 3), keep=rng.random() < 0.3)
+            elif k == "ins_cond":
+                it.update(n=rng.randint(0, 3), tys=row(0, 2))
+            elif k == "ins_cfg":
+                it.update(tys=row(0, 2), blocks=rng.random() < 0.5)
+            out.append(it)
+        return out
+
+    root = rng.choice(DEG_ROOTS)
+    linkless = rng.random() < 0.65
+    p = {"root": root}
+    if root == "single":
+        p["op"] = rng.choice(DEG_SINGLE)
+        p["tys"] = row(0, 3)
+        return p
+    if root in ("dfg", "funcdefn", "tailloop"):
+        p["tys"] = row(0, 5)
+        p["keep"] = [] if linkless else sorted(rng.sample(range(len(p["tys"])), rng.randint(0, min(2, len(p["tys"])))))
+        its = items(rng.randint(0, 4))
+        if linkless:
+            its = [i for i in its if i["k"] not in ("gap", "used", "order")]
+        p["items"] = its
+    elif root == "module":
+        p["fns"] = [{"tys": row(0, 4), "keep": [], "items": [i for i in items(rng.randint(0, 2)) if i["k"] not in ("gap", "used", "order")]}
+                    for _ in range(rng.randint(0, 3))]
+        p["decls"] = [row(0, 3) for _ in range(rng.randint(0, 2))]
+        p["consts"] = rng.randint(0, 2)
+        p["alias"] = rng.random() < 0.3
+        p["call"] = (not linkless) and len(p["fns"]) >= 1 and rng.random() < 0.7
+    elif root == "cfg":
+        p["tys"] = row(0, 3)
+        p["blocks"] = 0 if linkless else rng.randint(0, 2)       # 0: the entry block is never given its branch
+    elif root == "cond":
+        p["n"] = rng.randint(0, 3)
+        p["tys"] = row(0, 3)
+        p["keep"] = not linkless and bool(p["tys"])
+    if not linkless and rng.random() < 0.35:
+        p["unlink"] = rng.choice(["all", "all", "first", "last"])       # links deleted again after building
+    return p
+
+
+def run_deg_program(p):
+    from hugr import ops, tys, val
+    from hugr.hugr import Hugr
+    from hugr.build import Cfg, Dfg, Module
+    from hugr.build.cond_loop import Conditional, TailLoop
+    from hugr.build.dfg import Function
+    tymap = {"B": tys.Bool, "Q": tys.Qubit, "U": tys.Unit, "P": tys.Tuple(tys.Bool, tys.Unit)}
+
+    def row(code):
+        return [tymap[c] for c in code]
+
+    def custom(a, b, name="deg"):
+        return ops.Custom(name, tys.FunctionType([tys.Bool] * a, [tys.Bool] * b), extension="verif.ext")
+
+    def unit_sum(n):
+        return tys.Sum([[] for _ in range(n)])
+
+    def fill(b, its, wires):
+        """b: a dataflow builder; wires: wires of the region (possibly none)"""
+        h = b.hugr
+        for it in its:
+            k = it["k"]
+            if k == "iso":
+                ra, rb = [tys.Bool] * it["a"], [tys.Bool] * it["b"]
+                op = {"custom": lambda: custom(it["a"], it["b"], "iso%d" % it["at"]), "DFG": lambda: ops.DFG(ra, rb),
+                      "CFG": lambda: ops.CFG(ra, rb), "Conditional": lambda: ops.Conditional(unit_sum(2), ra, rb),
+                      "TailLoop": lambda: ops.TailLoop(ra, rb)}[it.get("op", "custom")]()
+                h.add_node(op, b.parent_node, it["b"])
+            elif k == "gap":
+                n = h.add_node(custom(it["a"], it["b"], "gap"), b.parent_node, it["b"])
+                if wires:
+                    h.add_link(wires[0].out_port(), n.inp(min(it["j"], it["a"] - 1)))
+            elif k == "const":
+                b.add_const(val.TRUE)                                   # one output port (constant edge), never loaded
+            elif k == "empty_dfg":
+                with b.add_nested() as inner:                           # a container that holds its Input/Output only
+                    inner.set_outputs()
+            elif k == "ins_dfg":
+                d = Dfg(*row(it["tys"]))
+                d.set_outputs(*(d.inputs() if it["keep"] else []))
+                h.insert_hugr(d.hugr, b.parent_node)                    # a sub-HUGR nobody is wired to
+            elif k == "ins_loop":
+                t = TailLoop([], row(it["tys"]))
+                if it["keep"]:
+                    c = t.add_op(ops.Tag(1, tys.Sum([[], []])))
+                    t.set_loop_outputs(c, *t.inputs())
+                h.insert_hugr(t.hugr, b.parent_node)
+            elif k == "ins_cond":
+                c = Conditional(unit_sum(it["n"]), row(it["tys"]))
+                for i in range(it["n"]):
+                    with c.add_case(i) as cc:
+                        cc.set_outputs()
+                h.insert_hugr(c.hugr, b.parent_node)
+            elif k == "ins_cfg":
+                c = Cfg(*row(it["tys"]))
+                if it["blocks"]:
+                    e = c.add_entry()
+                    e.set_single_succ_outputs()
+                    c.branch_exit(e[0])
+                h.insert_hugr(c.hugr, b.parent_node)
+            elif k == "used":
+                if wires:
+                    b.add_op(custom(1, 1, "used"), wires[0])            # linked input, unlinked output
+            elif k == "order":
+                b.add_state_order(b.input_node, b.output_node)
+            else:
+                raise ValueError(k)
+
+    root = p["root"]
+    if root == "single":
+        r = row(p.get("tys", ""))
+        op = {
+            "Module": lambda: ops.Module(), "DFG": lambda: ops.DFG(r, r), "Custom": lambda: custom(len(r), 2),
+            "CFG": lambda: ops.CFG(r, r), "Conditional": lambda: ops.Conditional(unit_sum(2), r),
+            "TailLoop": lambda: ops.TailLoop(r, r), "Case": lambda: ops.Case(r), "FuncDefn": lambda: ops.FuncDefn("f", r),
+            "FuncDecl": lambda: ops.FuncDecl("g", tys.PolyFuncType([], tys.FunctionType(r, r))),
+            "Const": lambda: ops.Const(val.TRUE), "Input": lambda: ops.Input(r), "Output": lambda: ops.Output(r),
+            "DataflowBlock": lambda: ops.DataflowBlock(r), "ExitBlock": lambda: ops.ExitBlock(r),
+            "Tag": lambda: ops.Tag(0, tys.Sum([r, []])), "MakeTuple": lambda: ops.MakeTuple(r),
+            "UnpackTuple": lambda: ops.UnpackTuple(r), "Noop": lambda: ops.Noop(tys.Bool),
+            "LoadConst": lambda: ops.LoadConst(tys.Bool),
+            "Call": lambda: ops.Call(tys.PolyFuncType([], tys.FunctionType(r, r))),
+            "ExtOp": lambda: mk_ext_op(("gate", "fork")), "AliasDefn": lambda: ops.AliasDefn("A", tys.Bool),
+        }[p["op"]]()
+        h = Hugr(op)
+    elif root in ("dfg", "funcdefn", "tailloop"):
+        r = row(p["tys"])
+        b = Dfg(*r) if root == "dfg" else Function("main", r) if root == "funcdefn" else TailLoop([], r)
+        ins = b.inputs()
+        fill(b, p.get("items", []), ins)
+        keep = [ins[i] for i in p.get("keep", []) if i < len(ins)]
+        if root == "tailloop":
+            if keep:                                  # otherwise the loop body is left without outputs
+                c = b.add_op(ops.Tag(1, tys.Sum([[], []])))
+                b.set_loop_outputs(c, *keep)
+        else:
+            b.set_outputs(*keep)
+        h = b.hugr
+    elif root == "module":
+        m = Module()
+        fns = []
+        for i, f in enumerate(p.get("fns", [])):
+            fb = m.define_function("f%d" % i, row(f["tys"]), [])
+            fill(fb, f.get("items", []), fb.inputs())
+            fb.set_outputs()
+            fns.append(fb)
+        for i, d in enumerate(p.get("decls", [])):
+            m.declare_function("d%d" % i, tys.PolyFuncType([], tys.FunctionType(row(d), [])))
+        for i in range(p.get("consts", 0)):
+            m.add_const(val.TRUE if i % 2 else val.FALSE)
+        if p.get("alias"):
+            m.add_alias_defn("A", tys.Bool)
+        if p.get("call") and fns:
+            g = m.define_function("caller", row(p["fns"][0]["tys"]), [])
+            g.call(fns[0].parent_node, *g.inputs())
+            g.set_outputs()
+        h = m.hugr
+    elif root == "cfg":
+        c = Cfg(*row(p["tys"]))
+        if p.get("blocks", 0) >= 1:
+            e = c.add_entry()
+            e.set_single_succ_outputs(*e.inputs())
+            if p["blocks"] >= 2:
+                b2 = c.add_successor(e[0])
+                b2.set_single_succ_outputs(*b2.inputs())
+                c.branch_exit(b2[0])
+            else:
+                c.branch_exit(e[0])
+        h = c.hugr
+    elif root == "cond":
+        c = Conditional(unit_sum(p["n"]), row(p["tys"]))
+        for i in range(p["n"]):
+            with c.add_case(i) as cc:
+                cc.set_outputs(*(cc.inputs() if p.get("keep") else []))
+        h = c.hugr
+    else:
+        raise ValueError(root)
+    un = p.get("unlink")
+    if un:
+        ls = list(h.links())
+        if un == "first":
+            ls = ls[:1]
+        elif un == "last":
+            ls = ls[-1:]
+        for s, t in ls:
+            h.delete_link(s, t)
+    return h
+
+
+def deg_reloadable(p):
+    """built by the builders alone (no node put in through Hugr.add_node, nothing deleted, a complete region)"""
+    def plain(its):
+        return all(i["k"] in ("const", "empty_dfg", "order") for i in its)
+    if p.get("unlink"):
+        return False
+    if p["root"] in ("dfg", "funcdefn"):
+        return plain(p.get("items", []))
+    if p["root"] == "module":
+        return all(plain(f.get("items", [])) for f in p.get("fns", []))
+    return False
+
+
+def shrink_deg_program(p):
+    if p.get("unlink") and p["unlink"] != "all":
+        yield {**p, "unlink": "all"}
+    for key in ("items", "fns", "decls"):
+        v = p.get(key)
+        if v:
+            for i in range(len(v)):
+                yield {**p, key: v[:i] + v[i + 1:]}
+    for i, f in enumerate(p.get("fns", [])):
+        for j in range(len(f.get("items", []))):
+            g = {**f, "items": f["items"][:j] + f["items"][j + 1:]}
+            yield {**p, "fns": p["fns"][:i] + [g] + p["fns"][i + 1:]}
+        if len(f["tys"]) > 1:
+            g = {**f, "tys": f["tys"][:-1]}
+            yield {**p, "fns": p["fns"][:i] + [g] + p["fns"][i + 1:]}
+    for key in ("consts", "n", "blocks"):
+        if isinstance(p.get(key), int) and not isinstance(p.get(key), bool) and p[key] > 0:
+            yield {**p, key: p[key] - 1}
+    for key in ("alias", "call"):
+        if p.get(key):
+            yield {**p, key: False}
+    t = p.get("tys")
+    if t and len(t) > 1:
+        q = {**p, "tys": t[:-1]}
+        if isinstance(q.get("keep"), list):
+            q["keep"] = [i for i in q["keep"] if i < len(t) - 1]
+        yield q
+    if t and set(t) != {"B"}:
+        yield {**p, "tys": "B" * len(t)}
+    if isinstance(p.get("keep"), list) and p["keep"]:
+        yield {**p, "keep": p["keep"][:-1]}
 
 
 def mutate(h, rng, k):
